@@ -7,9 +7,9 @@ Only *clearly* valid / invalid lexical forms are decided; anything else is repor
 import re
 from harness import schema_gen as G
 
-_DT = re.compile(r'^-?\d{4,}-(\d\d)-(\d\d)T(\d\d):(\d\d):(\d\d)(\.\d+)?(Z|[+-]\d\d:\d\d)?$')
-_DUR = re.compile(r'^-?P(?=.)(\d+Y)?(\d+M)?(\d+D)?(T(?=.)(\d+H)?(\d+M)?(\d+(\.\d+)?S)?)?$')
-_INT = re.compile(r'^[+-]?\d+$')
+_DT = re.compile(r'^-?[0-9]{4,}-([0-9]{2})-([0-9]{2})T([0-9]{2}):([0-9]{2}):([0-9]{2})(\.[0-9]+)?(Z|[+-][0-9]{2}:[0-9]{2})?\Z')
+_DUR = re.compile(r'^-?P(?=.)([0-9]+Y)?([0-9]+M)?([0-9]+D)?(T(?=.)([0-9]+H)?([0-9]+M)?([0-9]+(\.[0-9]+)?S)?)?\Z')
+_INT = re.compile(r'^[+-]?[0-9]+\Z')
 
 
 def conforms(tn, v):
